@@ -210,6 +210,7 @@ class WellFormed(Stream):
     """random well-formed messages of every dispatched type through PlainNasEncode -> PlainNasDecode -> PlainNasEncode"""
     name = "nasrt-wellformed"
     sub = "nasrt"
+    retained_field = "enc"
     requires = ["String", "Bytes", "NasValue", "NasCodec", "NasCorr"]
     model_check = "nasrt_check"
     spec_check = "nasrt_lossless"
@@ -254,6 +255,7 @@ class Odd(Stream):
     matching the struct, unknown header type): the model must still say what the library does"""
     name = "nasrt-odd"
     sub = "nasrt"
+    retained_field = "enc"
     requires = ["String", "Bytes", "NasValue", "NasCodec", "NasCorr"]
     model_check = "nasrt_check"
     model_out = "nasrt_expect"
